@@ -51,6 +51,34 @@ SELECT_PARTS = [
 ]
 
 
+DELETE_PARTS = [
+    ("with", "(match s.with { Some(w) => seq![Ev::With(w)], None => Seq::<Ev>::empty() })", "(match s.with { Some(w) => pre.push(Ev::With(w)), None => pre })"),
+    ("kw", 'seq![lit("DELETE ")]', 'pre.push(lit("DELETE "))'),
+    ("table", '(match s.table { Some(t) => seq![lit("FROM "), Ev::TRef(*t)], None => Seq::<Ev>::empty() })', '(match s.table { Some(t) => pre.push(lit("FROM ")).push(Ev::TRef(*t)), None => pre })'),
+    ("output", "seq![Ev::Output(s.returning)]", "pre.push(Ev::Output(s.returning))"),
+    ("where", 'seq![Ev::Cond("WHERE"@, s.r#where)]', 'pre.push(Ev::Cond("WHERE"@, s.r#where))'),
+    ("order", "seq![Ev::DelOrderBy]", "pre.push(Ev::DelOrderBy)"),
+    ("limit", "seq![Ev::DelLimit]", "pre.push(Ev::DelLimit)"),
+    ("returning", "seq![Ev::Returning(s.returning)]", "pre.push(Ev::Returning(s.returning))"),
+]
+# UPDATE: MySQL `UPDATE t [JOIN ..] SET ..  [WHERE] [ORDER BY] [LIMIT]`; Postgres / SQLite `UPDATE t SET .. [FROM ..] [WHERE] [RETURNING]`.
+# The dialect-only pieces are hooks (UpdJoin: MySQL; UpdFrom / Returning: Postgres, SQLite); the default renderer fixes their order.
+UPDATE_PARTS = [
+    ("with", "(match s.with { Some(w) => seq![Ev::With(w)], None => Seq::<Ev>::empty() })", "(match s.with { Some(w) => pre.push(Ev::With(w)), None => pre })"),
+    ("kw", 'seq![lit("UPDATE ")]', 'pre.push(lit("UPDATE "))'),
+    ("table", "(match s.table { Some(t) => seq![Ev::TRef(*t)], None => Seq::<Ev>::empty() })", "(match s.table { Some(t) => pre.push(Ev::TRef(*t)), None => pre })"),
+    ("join", "seq![Ev::UpdJoin]", "pre.push(Ev::UpdJoin)"),
+    ("set", 'seq![lit(" SET ")]', 'pre.push(lit(" SET "))'),
+    ("values", "l_updvalues(s.values@)", "pre + l_updvalues(s.values@)"),
+    ("from", "seq![Ev::UpdFrom]", "pre.push(Ev::UpdFrom)"),
+    ("output", "seq![Ev::Output(s.returning)]", "pre.push(Ev::Output(s.returning))"),
+    ("where", "seq![Ev::UpdCond]", "pre.push(Ev::UpdCond)"),
+    ("order", "seq![Ev::UpdOrderBy]", "pre.push(Ev::UpdOrderBy)"),
+    ("limit", "seq![Ev::UpdLimit]", "pre.push(Ev::UpdLimit)"),
+    ("returning", "seq![Ev::Returning(s.returning)]", "pre.push(Ev::Returning(s.returning))"),
+]
+
+
 def list_fns(name, ty, mk, kind):
     """first-order list renderers (no closures): kind `sep`: x1, x2, ..  |  `pre`: each item preceded by ` `  |  `each`: items only"""
     class M(str):
@@ -63,6 +91,10 @@ def list_fns(name, ty, mk, kind):
     elif kind == "pre":
         body = "if xs.len() == 0 { Seq::<Ev>::empty() } else { %s(xs.drop_last()).push(lit(\" \")).push(%s) }" % (name, mk % "xs.last()")
         step = "%s(xs.subrange(0, i)).push(lit(\" \")).push(%s)" % (name, mk % "xs[i]")
+    elif kind == "upd":
+        item = "push(Ev::UpdColumn(%s.0)).push(lit(\" = \")).push(Ev::Expr(*%s.1))"
+        body = "if xs.len() == 0 { Seq::<Ev>::empty() } else if xs.len() == 1 { Seq::<Ev>::empty().%s } else { %s(xs.drop_last()).push(lit(\", \")).%s }" % (item.replace("%s", "xs[0]"), name, item.replace("%s", "xs.last()"))
+        step = "(if i == 0 { Seq::<Ev>::empty().%s } else { %s(xs.subrange(0, i)).push(lit(\", \")).%s })" % (item.replace("%s", "xs[0]"), name, item.replace("%s", "xs[i]"))
     else:
         body = "if xs.len() == 0 { Seq::<Ev>::empty() } else { %s(xs.drop_last()).push(%s) }" % (name, mk % "xs.last()")
         step = "%s(xs.subrange(0, i)).push(%s)" % (name, mk % "xs[i]")
@@ -87,7 +119,8 @@ pub proof fn lemma_%(n)s_empty(xs: Seq<%(t)s>)
 
 
 LISTS = [("l_selexprs", "SelectExpr", "Ev::SelExpr(%s)", "sep"), ("l_trefs", "TableRef", "Ev::TRef(%s)", "sep"), ("l_exprs", "SimpleExpr", "Ev::Expr(%s)", "sep"),
-         ("l_orders", "OrderExpr", "Ev::Order(%s)", "sep"), ("l_joins", "JoinExpr", "Ev::Join(%s)", "pre"), ("l_unions", "(UnionType, SelectStatement)", "Ev::Union(%s.0, %s.1)", "each")]
+         ("l_orders", "OrderExpr", "Ev::Order(%s)", "sep"), ("l_joins", "JoinExpr", "Ev::Join(%s)", "pre"), ("l_unions", "(UnionType, SelectStatement)", "Ev::Union(%s.0, %s.1)", "each"),
+         ("l_updvalues", "(DynIden, Box<SimpleExpr>)", "", "upd")]
 
 
 def parts_spec(prefix, ty, parts):
@@ -136,6 +169,10 @@ def build(u):
     u.prelude_file("units/render/spec.rs", props=P)
     u.spec("".join(list_fns(*l) for l in LISTS), "render::list-fns", props=P)
     u.spec(parts_spec("select", "SelectStatement", SELECT_PARTS), "render::select_events", props=P)
+    u.type_item("src/query/delete.rs", "struct", "DeleteStatement", props=P, keep_fields=["table", "where", "returning", "with"])
+    u.type_item("src/query/update.rs", "struct", "UpdateStatement", props=P, keep_fields=["table", "values", "where", "returning", "with", "from"])
+    u.spec(parts_spec("delete", "DeleteStatement", DELETE_PARTS), "render::delete_events", props=P)
+    u.spec(parts_spec("update", "UpdateStatement", UPDATE_PARTS), "render::update_events", props=P)
     u.emit("pub struct Dflt;\nimpl Dflt {\n")
     u.spec(abstract("prepare_with_clause", "x: &WithClause", "Ev::With(*x)") + abstract("prepare_select_distinct", "x: &SelectDistinct", "Ev::Distinct(*x)")
            + abstract("prepare_select_expr", "x: &SelectExpr", "Ev::SelExpr(*x)") + abstract("prepare_table_ref", "x: &TableRef", "Ev::TRef(*x)")
@@ -192,5 +229,75 @@ def build(u):
                  "before#1:if let Some(lock) = &select.lock": stage("select", "select", "limit", "order", nxt="lock"),
                  "body-end": stage("select", "select", "lock", "limit", nxt=None),
                  })
+    # ---- DELETE ------------------------------------------------------------------------------------------------------------
+    u.spec(abstract("prepare_output", "x: &Option<ReturningClause>", "Ev::Output(*x)") + abstract("prepare_returning", "x: &Option<ReturningClause>", "Ev::Returning(*x)")
+           + abstract("prepare_delete_order_by", "x: &DeleteStatement", "Ev::DelOrderBy") + abstract("prepare_delete_limit", "x: &DeleteStatement", "Ev::DelLimit")
+           + abstract("prepare_update_join", "f: &Vec<TableRef>, c: &ConditionHolder", "Ev::UpdJoin") + abstract("prepare_update_from", "f: &Vec<TableRef>", "Ev::UpdFrom")
+           + abstract("prepare_update_column", "t: &Option<Box<TableRef>>, f: &Vec<TableRef>, c: &DynIden", "Ev::UpdColumn(*c)")
+           + abstract("prepare_update_condition", "f: &Vec<TableRef>, c: &ConditionHolder", "Ev::UpdCond") + abstract("prepare_update_order_by", "x: &UpdateStatement", "Ev::UpdOrderBy")
+           + abstract("prepare_update_limit", "x: &UpdateStatement", "Ev::UpdLimit"), "render::abstract-hooks", props=P)
+
+    def anchors(prefix, var, parts, marks):
+        """proof hints: marks[i] = anchor text located right AFTER part i's code (i.e. before the next part's code); the last part uses body-end"""
+        pr = {"body-start": snapshots(parts)}
+        for i, (name, _, _) in enumerate(parts):
+            prev = parts[i - 1][0] if i > 0 else None
+            nxt = parts[i + 1][0] if i + 1 < len(parts) else None
+            a = marks[i] if i < len(marks) else "body-end"
+            pr[a] = pr.get(a, "") + ("\n" if a in pr else "") + stage(prefix, var, name, prev, nxt=nxt)
+        return pr
+    u.fn(QB, "trait QueryBuilder", "prepare_delete_statement", props=P, key="QueryBuilder::prepare_delete_statement", vpath="Dflt::prepare_delete_statement",
+         rules=[r_dynw, r_fmt],
+         spec="ensures final(sql).tr() == old(sql).tr() + delete_events(*delete),",
+         proofs=anchors("delete", "delete", DELETE_PARTS, ['before#1:vfmt_lit(sql, "DELETE ")', "before#1:if let Some(table) = &delete.table", "before#1:self.prepare_output", "before#1:self.prepare_condition",
+                                                           "before#1:self.prepare_delete_order_by", "before#1:self.prepare_delete_limit", "before#1:self.prepare_returning"]))
+    # ---- UPDATE ------------------------------------------------------------------------------------------------------------
+    upd = anchors("update", "update", UPDATE_PARTS, ['before#1:vfmt_lit(sql, "UPDATE ")', "before#1:if let Some(table) = &update.table", "before#1:self.prepare_update_join", 'before#1:vfmt_lit(sql, " SET ")',
+                                                      "before#1:let mut first = true;", "before#1:self.prepare_update_from", "before#1:self.prepare_output", "before#1:self.prepare_update_condition",
+                                                      "before#1:self.prepare_update_order_by", "before#1:self.prepare_update_limit", "before#1:self.prepare_returning"])
+    upd["before#1:let mut first = true;"] += "\n" + "let ghost tv = sql.tr();\nproof { lemma_l_updvalues_empty(update.values@); assert(tv + Seq::<Ev>::empty() =~= tv); }"
+    upd["loop1-end"] = "proof { lemma_l_updvalues_step(update.values@, it1.index@ as int); }"
+    upd["before#1:self.prepare_update_from"] = "proof { lemma_l_updvalues_empty(update.values@); }\n" + upd["before#1:self.prepare_update_from"]
+    u.fn(QB, "trait QueryBuilder", "prepare_update_statement", props=P, key="QueryBuilder::prepare_update_statement", vpath="Dflt::prepare_update_statement",
+         rules=[r_dynw, r_fold, r_fmt],
+         spec="ensures final(sql).tr() == old(sql).tr() + update_events(*update),",
+         loops=["""invariant
+    it1.index@ <= update.values@.len(), first == (it1.index@ == 0),
+    sql.tr() == tv + l_updvalues(update.values@.subrange(0, it1.index@ as int)),"""],
+         proofs=upd)
+    # ---- default hooks -------------------------------------------------------------------------------------------------------
+    u.type_item("src/query/update.rs", "struct", "UpdateStatement", props=P, keep_fields=["orders"], key="UpdateStatement(orders)",
+                rules=[make_r_sub("R-fields", r"struct UpdateStatement", "struct UpdateStatementO")]) if False else None
+    u.fn(QB, "trait QueryBuilder", "prepare_update_from", rename="prepare_update_from_dflt", props=P, key="QueryBuilder::prepare_update_from[default]", vpath="Dflt::prepare_update_from_dflt",
+         rules=[r_dynw, r_fold, r_fmt, make_r_sub("R-slice", r"from: &\[TableRef\]", "from: &Vec<TableRef>")],
+         spec="ensures\n    // UPDATE .. FROM t1, t2 (Postgres / SQLite): every table given, in call order; nothing when none was given\n    final(sql).tr() == old(sql).tr() + (if from@.len() == 0 { Seq::<Ev>::empty() } else { seq![lit(\" FROM \")] + l_trefs(from@) }),",
+         loops=["invariant it1.index@ <= from@.len(), first == (it1.index@ == 0), sql.tr() == tf + l_trefs(from@.subrange(0, it1.index@ as int)),"],
+         proofs={"body-start": "let ghost t0 = sql.tr();\nproof { assert(t0 + Seq::<Ev>::empty() =~= t0); }",
+                 "before#1:let mut first = true;": "let ghost tf = sql.tr();\nproof { lemma_l_trefs_empty(from@); assert(tf + Seq::<Ev>::empty() =~= tf); }",
+                 "loop1-end": "proof { lemma_l_trefs_step(from@, it1.index@ as int); }",
+                 "body-end": "proof { lemma_l_trefs_empty(from@); assert(sql.tr() =~= t0 + (seq![lit(\" FROM \")] + l_trefs(from@))); }"})
+    u.fn(QB, "trait QueryBuilder", "prepare_update_condition", rename="prepare_update_condition_dflt", props=P, key="QueryBuilder::prepare_update_condition[default]", vpath="Dflt::prepare_update_condition_dflt",
+         rules=[r_dynw, make_r_sub("R-slice", r"_: &\[TableRef\]", "_from: &Vec<TableRef>"), make_r_sub("R-str", r'self\.prepare_condition\(condition, "WHERE", sql\)', 'self.prepare_condition(condition, "WHERE", sql)')],
+         spec="ensures final(sql).tr() == old(sql).tr().push(Ev::Cond(\"WHERE\"@, *condition)),")
+    u.emit("}\n")
+    # ---- MySQL overrides: UPDATE t JOIN .. ON .. SET ..  (no FROM, the condition moves into ON) -------------------------------------
+    u.emit("pub struct MysqlQueryBuilder;\nimpl MysqlQueryBuilder {\n")
+    u.spec(abstract("prepare_table_ref", "x: &TableRef", "Ev::TRef(*x)") + abstract("prepare_condition", "x: &ConditionHolder, kw: &str", "Ev::Cond(kw@, *x)"), "render::abstract-sub-renderers(mysql)", props=P)
+    MY = "src/backend/mysql/query.rs"
+    u.fn(MY, "impl QueryBuilder for MysqlQueryBuilder", "prepare_update_join", props=P, key="MysqlQueryBuilder::prepare_update_join", vpath="MysqlQueryBuilder::prepare_update_join",
+         rules=[r_dynw, r_fmt, make_r_sub("R-slice", r"from: &\[TableRef\]", "from: &Vec<TableRef>")],
+         spec=[("""ensures
+    // MySQL form: nothing without extra tables, otherwise ` JOIN <table> ON <the statement's condition>` (the condition moves here)
+    from@.len() == 0 ==> final(sql).tr() == old(sql).tr(),
+    from@.len() > 0 ==> final(sql).tr().len() >= old(sql).tr().len() + 3 && final(sql).tr().subrange(0, old(sql).tr().len() as int) == old(sql).tr()
+        && final(sql).tr()[old(sql).tr().len() as int] == lit(" JOIN ") && final(sql).tr().last() == Ev::Cond("ON"@, *condition),""", P),
+               ("    // C08: EVERY table that was given is rendered\n    forall|i: int| 0 <= i < from@.len() ==> final(sql).tr().contains(Ev::TRef(#[trigger] from@[i])),", P)],
+         proofs={"body-start": "let ghost t0 = sql.tr();", "body-end": "proof { assert(sql.tr().subrange(0, t0.len() as int) =~= t0); assert(sql.tr()[t0.len() as int + 1] == Ev::TRef(from@[0])); }"})
+    u.fn(MY, "impl QueryBuilder for MysqlQueryBuilder", "prepare_update_from", props=P, key="MysqlQueryBuilder::prepare_update_from", vpath="MysqlQueryBuilder::prepare_update_from",
+         rules=[r_dynw, make_r_sub("R-slice", r"_: &\[TableRef\], _: &mut W", "_from: &Vec<TableRef>, sql: &mut W")],
+         spec="ensures\n    // UPDATE .. FROM is not MySQL syntax: it must not appear\n    final(sql).tr() == old(sql).tr(),")
+    u.fn(MY, "impl QueryBuilder for MysqlQueryBuilder", "prepare_update_condition", props=P, key="MysqlQueryBuilder::prepare_update_condition", vpath="MysqlQueryBuilder::prepare_update_condition",
+         rules=[r_dynw, make_r_sub("R-slice", r"from: &\[TableRef\]", "from: &Vec<TableRef>")],
+         spec="ensures\n    // the condition is rendered exactly once: in JOIN .. ON when there are extra tables, as WHERE otherwise\n    final(sql).tr() == (if from@.len() > 0 { old(sql).tr() } else { old(sql).tr().push(Ev::Cond(\"WHERE\"@, *condition)) }),")
     u.emit("}\n")
     u.emit("} // verus!\nfn main() {}\n")
